@@ -30,6 +30,7 @@ func checkC05(e *Env) {
 	dist := newDistinct()
 	smp := newSamples(6)
 	decodes := newCounter()
+	notReturned := newCounter() // calls that returned no mnemonic (not this property's subject)
 	collisionsExamined := 0
 
 	K := e.pick(4, 50)
@@ -60,11 +61,13 @@ func checkC05(e *Env) {
 		x := it.Exp.(c05exp)
 		c := x.c
 		if f := failure(r); f != "" {
-			e.Violate(&Violation{What: "NewMnemonicByEntropy did not return normally: " + f, Ops: []plan.Op{it.Op}, Observed: r})
+			// no mnemonic was returned, so there is nothing to decode: whether the generator
+			// may fail for valid entropy is C01's, C09's and C14's question
+			notReturned.Inc(oneLine(f, 60))
 			return
 		}
 		if r.Err != nil {
-			e.Violate(&Violation{What: fmt.Sprintf("NewMnemonicByEntropy returned error %q for valid entropy %x", errText(r.Err), c.Ent), Ops: []plan.Op{it.Op}, Observed: r})
+			notReturned.Inc("error " + oneLine(errText(r.Err), 60))
 			return
 		}
 		out := string(unhex(r.Out))
@@ -153,10 +156,13 @@ func checkC05(e *Env) {
 			}
 		}
 	}
+	if nr := notReturned.Total(); e.Violations() == 0 && int64(nr)*2 > stats.Ops {
+		fatalInconclusive("C05: NewMnemonicByEntropy returned no mnemonic in %d of %d calls (%v): too little output was observed to decide", nr, stats.Ops, notReturned.Map())
+	}
 	bitsCovered := map[string]int{}
 	for s, m := range flipBits {
 		bitsCovered[itoa(ref.EntSizes[s]*8)] = len(m)
-		if e.Violations() == 0 && len(m) != ref.EntSizes[s]*8 {
+		if e.Violations() == 0 && notReturned.Total() == 0 && len(m) != ref.EntSizes[s]*8 {
 			fatalInconclusive("C05: only %d of %d bit positions were flipped at size %d", len(m), ref.EntSizes[s]*8, ref.EntSizes[s])
 		}
 	}
@@ -167,6 +173,7 @@ func checkC05(e *Env) {
 		"rule":                             "a case is (entropy, language): the C01 corpus plus, for K base entropies per language x size (K=4 quick, 50 thorough; the first base is all-zero), the base and all ENT single-bit flips; each returned sentence is decoded by the independent bit-array decoder over the golden lists and compared with the entropy passed in; a run-wide map (language, sentence) -> entropy detects collisions; all cases are non-trivial; distinct = distinct (entropy, language)",
 		"samples":                          smp.List(),
 		"decodes_per_language":             decodes.Map(),
+		"calls_that_returned_no_mnemonic":  notReturned.Map(),
 		"flip_groups":                      len(baseSent),
 		"single_bit_flips_compared":        flipsCompared,
 		"bit_positions_flipped_per_width":  bitsCovered,
